@@ -102,7 +102,7 @@ def prefix_ok(a, b):
 
 
 def replay_lines(ci):
-    return [l for l in ci if l[:2] in ("G ", "D ", "A ", "S ", "E ")]
+    return [l for l in ci if l[:2] in ("G ", "D ", "A ", "S ", "E ") or l.startswith("DL ")]
 
 
 def graph_features(g):
@@ -133,7 +133,8 @@ class Tot:
     def __init__(self):
         self.n = {"net_cases": 0, "net_ok": 0, "sim_cases": 0, "sim_ticks": 0, "hdl_cases": 0, "hdl_clocks": 0, "hdl_ok": 0,
                   "stream_compared": 0, "stream_live": 0, "stream_values": 0, "excluded_by_PortReuseSafe": 0, "no_traffic": 0,
-                  "env_checked": 0, "model_stream_checked": 0, "noise_cases": 0, "ref_checked": 0}
+                  "env_checked": 0, "model_stream_checked": 0, "noise_cases": 0, "ref_checked": 0,
+                  "delayed_cases": 0, "delayed_live": 0, "delayed_live_fanout": 0}
         self.dist = {"procs": {}, "rsize": {}, "maxfan": {}, "inputs": {}, "outputs": {}, "mixed_consumers": 0, "unlinked_sinks": 0,
                      "unconsumed_drivers": 0, "bonds": 0}
         self.distinct = set()
@@ -263,6 +264,29 @@ def compare(tot, ci_all, cm_all, mode):
         if rf is not None and not prefix_ok(sh, rf):
             tot.fails.append(dict(base, kind="reference-stream", detail="the generated HDL's delivered streams are not those of the blocking-IO reference network (refutes RtlRefines)",
                                   impl=tagged(cm, "SH"), model=tagged(cm, "RF")))
+        # "regardless of how many clock cycles either takes": the simulator with opcode latencies
+        sd_raw = tagged(ci, "SD")
+        if sd_raw is not None:
+            tot.n["delayed_cases"] += 1
+            sd = streams(sd_raw, nout) if sd_raw != "err" else None
+            whyd = None
+            if sd is None:
+                whyd = "the simulator with opcode delays fails to step"
+            elif not prefix_ok(sd, ss):
+                whyd = "the simulator delivers other streams with simulated opcode delays (%s) than without" % tagged(ci, "DL")
+            elif not prefix_ok(sd, sh):
+                whyd = "the simulator with simulated opcode delays (%s) and the generated HDL deliver different streams" % tagged(ci, "DL")
+            else:
+                for a, b in zip(ss, sd):
+                    if len(a) >= 12 and len(b) == 0:
+                        whyd = "the simulator with opcode delays (%s) stalls where it keeps delivering without them" % tagged(ci, "DL")
+            if whyd:
+                tot.fails.append(dict(base, kind="property-fails-on-impl", why=whyd, simulator_streams=tagged(ci, "SS"),
+                                      delayed_simulator_streams=sd_raw, hdl_streams=tagged(cm, "SH"), ticks=len(xi)))
+            elif any(min(len(a), len(b)) >= 3 for a, b in zip(ss, sd)):
+                tot.n["delayed_live"] += 1
+                if ft["maxfan"] >= 2:
+                    tot.n["delayed_live_fanout"] += 1
         # the statement of stream_eq on the two models
         tot.n["model_stream_checked"] += 1
         if not prefix_ok(ms, sr):
